@@ -257,6 +257,7 @@ class Interp:
         self.repo_root = repo_root
         self.verif_root = verif_root
         self.modules = {}          # name -> ModuleVal
+        self.pristine = {}         # name -> namespace snapshot at load time
         self.sources = {}          # path -> source text override (canaries)
         self.path = None           # current core.Path
         self.frames = []
@@ -342,7 +343,34 @@ class Interp:
                     m.load_problems.append((st.lineno, str(e)))
         finally:
             self.frames.pop()
+        self.pristine[name] = self.snapshot_module(m)
         return m
+
+    def snapshot_module(self, m):
+        """Namespace of a freshly loaded module (and of its classes and
+        function attributes): restored before every path, because proof
+        scripts patch module state."""
+        extra = {}
+        for k, v in m.ns.items():
+            if isinstance(v, FuncVal):
+                extra[k] = dict(v.attrs)
+            elif isinstance(v, ClassVal) and v.module is m:
+                extra[k] = dict(v.ns)
+        return (dict(m.ns), extra)
+
+    def restore_modules(self):
+        for name, (ns, extra) in self.pristine.items():
+            m = self.modules[name]
+            m.ns.clear()
+            m.ns.update(ns)
+            for k, a in extra.items():
+                v = m.ns.get(k)
+                if isinstance(v, FuncVal):
+                    v.attrs.clear()
+                    v.attrs.update(a)
+                elif isinstance(v, ClassVal):
+                    v.ns.clear()
+                    v.ns.update(a)
 
     # ------------------------------------------------------------------
     # exceptions
